@@ -327,6 +327,10 @@ macro_rules | `(tactic| resp_lemma) => `(tactic| with_reducible exact stepAfterA
 /-- the part not treated here: `stepInTableText` reads the pending table text, which `Sim` does not fix -/
 def InTableTextOK : Prop := ∀ token, TokOK token → RespQ (ResOK token) (stepInTableText token)
 
+/-- the hypothesis about `flush_pending_table_text` (`process_token`, DOCTYPE in "in table text"), discharged
+in `HtmlTBSplitFlush` -/
+def FlushTextOK : Prop := Resp flushPendingTableText
+
 theorem step_resp (hT : InTableTextOK) (mode : Mode) (token : Token) (ht : TokOK token) :
     RespQ (ResOK token) (step mode token) := by
   have h := hT token ht
@@ -342,7 +346,10 @@ theorem unexpectedStartTagInForeignContent_resp (hT : InTableTextOK) (tag : Tag)
 
 theorem foreignEndTagLoop_resp (hT : InTableTextOK) (tag : Tag) :
     ∀ n b, RespQ (ResOK (.tag tag)) (foreignEndTagLoop tag n b)
-  | 0, _ => by unfold foreignEndTagLoop; resp_fast
+  | 0, _ => by
+    have h := fun m => step_resp hT m (.tag tag) trivial
+    unfold foreignEndTagLoop; resp_fast
+    all_goals exact h _
   | n + 1, b => by
     have ih := foreignEndTagLoop_resp hT tag n false
     have h := fun m => step_resp hT m (.tag tag) trivial
